@@ -52,6 +52,7 @@ type vLogArgs struct {
 	lockDelay  time.Duration
 	rootID     string
 	cidx       uint64
+	perm       bool // this replica iterates its maps in an arbitrary order
 }
 
 func vApplyLog(s *Store, a vLogArgs) []vCmdResult {
@@ -62,6 +63,10 @@ func vApplyLog(s *Store, a vLogArgs) []vCmdResult {
 			r.msg = err.Error()
 		}
 		out = append(out, r)
+	}
+	if a.perm && a.kind != 7 {
+		verifrt.PermuteMaps(true)
+		defer verifrt.PermuteMaps(false)
 	}
 	switch a.kind {
 	case 0: // CA roots: set, then rotate the active root out
@@ -143,7 +148,13 @@ func vApplyLog(s *Store, a vLogArgs) []vCmdResult {
 		}
 		rec(true, ens(3, &structs.ServiceSplitterConfigEntry{Kind: structs.ServiceSplitter, Name: "main", Splits: []structs.ServiceSplit{{Weight: 100, Service: "other"}}}), 0)
 		rec(true, ens(4, &structs.ServiceSplitterConfigEntry{Kind: structs.ServiceSplitter, Name: "next", Splits: []structs.ServiceSplit{{Weight: 100, Service: "other"}}}), 0)
+		// (arbitrary map order in the service-graph validation of the refused write only: config entry writes
+		// range over dozens of small maps and their orders multiply)
+		if a.perm {
+			verifrt.PermuteMapsIn("validateProposedConfigEntryInServiceGraph")
+		}
 		rec(true, ens(5, &structs.ServiceConfigEntry{Kind: structs.ServiceDefaults, Name: "other", Protocol: "tcp"}), 0)
+		verifrt.PermuteMaps(false)
 	}
 	return out
 }
@@ -158,9 +169,8 @@ func VerifC01_SameLogSameState() {
 	r1 := NewStateStore(nil)
 	r2 := NewStateStore(nil)
 	res1 := vApplyLog(r1, a)
-	verifrt.PermuteMaps(true) // the other replica may iterate its maps in any order
+	a.perm = true // the other replica may iterate its maps in any order
 	res2 := vApplyLog(r2, a)
-	verifrt.PermuteMaps(false)
 	verifrt.Assert("C01.same-results", reflect.DeepEqual(res1, res2))
 	verifrt.Assert("C01.same-replicated-state", vSameState(r1, r2))
 	verifrt.Reached("end")
